@@ -157,6 +157,9 @@ def _insertion_scns(tier, seed, extra=()):
 def c11(tier, seed):
     scns = C.pairings_2d()[:8] + C.strands()[:2] + C.cubes_3d()[:4] + C.unweighted(C.pairings_2d()[:2])
     scns = scns + C.fractional(C.pairings_2d()[:4] + C.strands()[:1])
+    # quarters: several respondents whose weights add up to less than 1
+    scns = scns + [dict(s, name=s["name"] + "4") for s in
+                   C.fractional(C.pairings_2d()[:2], wden=4, weights=(1, 2))]
     scns = scns + [dict(s, name=s["name"] + ".ins") for s in _insertion_scns(tier, seed)]
     return dict(
         jobs=_value_jobs("C11", "c11", scns, tier, seed,
